@@ -66,6 +66,18 @@ def run_serde(tier, seed, corpus=None, tag=""):
                      os.path.join(ROOT, "coq", LAYER, "Model"), os.path.join(ROOT, "coq", LAYER, "Corr"), corpus])
     d = os.path.join(CACHE, "serderun", "%s_%s_%s%s" % (key, tier, seed, tag))
     done = os.path.join(d, "result.json")
+    os.makedirs(os.path.join(CACHE, "serderun"), exist_ok=True)
+    import fcntl
+    lock = open(os.path.join(CACHE, "serderun", ".lock"), "w")
+    fcntl.flock(lock, fcntl.LOCK_EX)          # C12 and C15 of one sweep may start together
+    try:
+        return _run_locked(d, done, binp, sz, seed, corpus, tag)
+    finally:
+        fcntl.flock(lock, fcntl.LOCK_UN)
+        lock.close()
+
+
+def _run_locked(d, done, binp, sz, seed, corpus, tag):
     if os.path.exists(done):
         res = json.load(open(done))
         res["rows"] = [json.loads(l) for l in open(os.path.join(d, "cases.jsonl"))]
